@@ -240,9 +240,21 @@ def _find_types(etype, types, get_subtypes, include_self, bound=None,
                 continue
 
     if isinstance(etype, tp.ParameterizedType):
-        t_set.add(_construct_related_types(
+        related_type = _construct_related_types(
             etype, types, get_subtypes,
-            ignore_variance=ignore_variance))
+            ignore_variance=ignore_variance)
+        # The type arguments of the constructed type may have been re-built
+        # from the bounds of the type parameters (see
+        # `_replace_type_argument`), or follow the assignment of another
+        # type parameter. Keep the constructed type only if it is indeed
+        # related to the given type.
+        t1, t2 = related_type, etype
+        if ignore_variance:
+            # Use-site variance is ignored: compare the types the callers
+            # use, namely the types without their top-level wildcards.
+            t1, t2 = t1.to_variance_free(), t2.to_variance_free()
+        if t1.is_subtype(t2) if get_subtypes else t2.is_subtype(t1):
+            t_set.add(related_type)
     if include_self:
         t_set.add(etype)
     else:
